@@ -212,13 +212,17 @@ impl Kind {
 
 impl Drop for AsyncFd {
     fn drop(&mut self) {
-        let res = self.sq.submissions().add(|submission| {
-            io_uring::io::close_file_fd(self.fd(), self.kind(), submission);
-            submission.0.user_data = CLOSE_USER_DATA;
-            submission.no_success_event();
-        });
-        if let Ok(()) = res {
-            return;
+        // NOTE: if the `Ring` is dropped nobody will submit the close
+        // submission to the kernel, so we have to close it synchronously.
+        if !self.sq.submissions().shared().is_ring_dropped() {
+            let res = self.sq.submissions().add(|submission| {
+                io_uring::io::close_file_fd(self.fd(), self.kind(), submission);
+                submission.0.user_data = CLOSE_USER_DATA;
+                submission.no_success_event();
+            });
+            if let Ok(()) = res {
+                return;
+            }
         }
 
         // Fall back to synchronously closing the descriptor.
